@@ -18,7 +18,7 @@ from common import Report, pick_samples, log
 from genlib import gen_request, generate, DEFAULT_OPTS
 
 FEATURES = ["iface", "impl2", "union", "enum", "scalar", "nesting", "dep_reason", "dep_iface", "input", "oneof",
-            "rootnames", "mutation", "subscription", "extend", "args", "enum_dep", "extend_impl", "shadow_roots", "underscore"]
+            "rootnames", "mutation", "subscription", "extend", "args", "enum_dep", "extend_impl", "shadow_roots", "underscore", "extend_twice"]
 
 
 def build(features):
@@ -32,7 +32,7 @@ def build(features):
     sel = [Field("a")]
     vars_ = []
     late_ext = False
-    if "iface" in f or "impl2" in f or "dep_iface" in f or "extend" in f or "extend_impl" in f or "underscore" in f:
+    if "iface" in f or "impl2" in f or "dep_iface" in f or "extend" in f or "extend_impl" in f or "underscore" in f or "extend_twice" in f:
         ifields = [FieldDef("id", "ID!")]
         if "dep_iface" in f:
             ifields.append(FieldDef("old", "String", dep=(None,)))
@@ -132,6 +132,22 @@ def build(features):
                 sel[sel.index(s)] = Field("node", new)
     if late_ext:
         extensions.append(("Late", [], ["Node"]))
+    if "extend_twice" in f:
+        # several `extend type` blocks of ONE type (fields in each, an interface in the first) and of the query root
+        types.append(gql.iface("Tagged", [FieldDef("tag", "String")]))
+        extensions.append(("Obj", [FieldDef("tag", "String"), FieldDef("e1", "Int")], ["Tagged"]))
+        extensions.append(("Obj", [FieldDef("e2", "[Int!]")], []))
+        extensions.append(("Obj", [FieldDef("e3", "ID")], []))
+        qfields.append(FieldDef("tagged", "Tagged"))
+        for s_ in sel:
+            if isinstance(s_, Field) and s_.name == "node":
+                new = []
+                for x in s_.sel:
+                    if isinstance(x, Inline) and x.on == "Obj":
+                        x = Inline("Obj", list(x.sel) + [Field("e1"), Field("e2"), Field("e3")])
+                    new.append(x)
+                sel[sel.index(s_)] = Field("node", new)
+        sel.append(Field("tagged", [TN(), Field("tag")]))
     types.append(gql.obj(qn, qfields))
     roots = {"query": qn}
     docs = [("Q", Doc([Op("query", "Op", sel, vars_)]))]
@@ -317,10 +333,10 @@ def run(tier):
     cov = {
         "states": len(schemas), "lattice_schemas": n_lattice, "harvested_schemas": len(schemas) - n_lattice, "transitions": transitions, "traces_validated_against_impl": transitions,
         "evaluations": len(jobs), "distinct_nontrivial": len(schemas) - 1,
-        "rule": "state = schema built from a subset of 19 constructs (interface+implementor, second implementor, union, enums, "
+        "rule": "state = schema built from a subset of 20 constructs (interface+implementor, second implementor, union, enums, "
                 "custom scalars, nested list/non-null types, deprecation with / without reason on objects and interfaces, "
                 "recursive inputs, @oneOf, explicit schema block with non-default root names, mutation, subscription, extend "
-                "type, argument defaults, deprecated enum values, field-less extend-implements, shadowed root names, type names with a leading underscore): all subsets of size <= %d, the full set, and CORE; transition "
+                "type, argument defaults, deprecated enum values, field-less extend-implements, shadowed root names, type names with a leading underscore, several extension blocks of one type): all subsets of size <= %d, the full set, and CORE; transition "
                 "= comparison of one rendering (3 SDL extensions, bare / wrapped JSON, JSON without built-ins but with __ types, "
                 "kind-grouped and reversed type orders, folded extensions) with the SDL rendering, per covering operation "
                 "(query / mutation / subscription) and option set (3); plus the schemas and operations harvested from the input spaces "
